@@ -97,12 +97,27 @@ template <size_t N> struct PTS {
   }
 };
 
+// ---- scenario 7: type-erased per-thread-storage objects of many size classes --------------------------------------
+struct PObj { void* obj; void (*del)(void*); size_t size; std::vector<uintptr_t> addr; unsigned off; unsigned cls; };
+template <size_t N> static PObj make_pobj() {
+  auto* s = new gsb::PerThreadStorage<Blob<N>>();
+  PObj o; o.obj = s; o.del = [](void* q) { delete (gsb::PerThreadStorage<Blob<N>>*)q; }; o.size = N;
+  unsigned maxT = gsb::getThreadPool().getMaxThreads();
+  for (unsigned t = 0; t < maxT; t++) o.addr.push_back((uintptr_t)s->getRemote(t));
+  return o;
+}
+typedef PObj (*mk_t)();
+static const mk_t MK[] = {make_pobj<1>, make_pobj<128>, make_pobj<129>, make_pobj<700>, make_pobj<4096>, make_pobj<5000>, make_pobj<20000>, make_pobj<(1 << 15)>,
+                          make_pobj<65536>, make_pobj<100000>, make_pobj<(1 << 18)>, make_pobj<300000>, make_pobj<(1 << 19) + 1>};
+static const size_t MKSZ[] = {1, 128, 129, 700, 4096, 5000, 20000, 1 << 15, 65536, 100000, 1 << 18, 300000, (1 << 19) + 1};
+static unsigned cls_of(size_t n) { unsigned i = 7; while ((1ul << i) < n) i++; return i; }
+
 int main() {
   int cap = tier() ? 16 : 8;
   int maxT = (int)vsim_param("maxthreads", 1, cap);
   Machine m = draw_machine(maxT);
-  int scen = (int)vsim_param("scenario", 0, 6);
-  static const char* sn[] = {"FixedSizeHeap", "Pow_2_BlockHeap", "VariableSizeHeap", "PagePool", "PerThreadStorage", "largeMalloc/LargeArray", "PerThreadStorage-freelist"};
+  int scen = (int)vsim_param("scenario", 0, 7);
+  static const char* sn[] = {"FixedSizeHeap", "Pow_2_BlockHeap", "VariableSizeHeap", "PagePool", "PerThreadStorage", "largeMalloc/LargeArray", "PerThreadStorage-freelist", "PerThreadStorage-history"};
   vsim_note("component", "alloc=%s", sn[scen]);
   vsim_enable_fault(VF_CAS_WEAK, 0.005, 0.1);
   vsim_enable_fault(VF_HUGE_REFUSED, 0.2, 0.9);
@@ -191,6 +206,67 @@ int main() {
     if (n) on_alloc("LargeArray", &la[0], n * sizeof(long), 8, 0);
     verify_all("largeMalloc");
     while (!live_list.empty()) on_free("largeMalloc", pick_live(0));
+    break; }
+  case 7: {
+    // Sequential random history of create/destroy over 13 sizes (classes 2^7..2^20) issued by changing threads.  A
+    // satisfiability model (bump position with tail recovery, count of free offsets per class with the documented
+    // smallest-bigger split) only decides which requests may be issued -- exhausting the 2MB area is a documented abort,
+    // not a property violation; what is returned is judged by the shadow map alone: every thread's block inside that
+    // thread's area, cache-line aligned, disjoint from all live blocks.
+    vsim_note("plan", "threads=%d ops=%d", nthr, ops * 3);
+    const size_t AREA = 2u << 20;
+    unsigned maxT = gsb::getThreadPool().getMaxThreads();
+    PObj probe = make_pobj<1>();
+    std::vector<uintptr_t> base(maxT);
+    for (unsigned t = 0; t < maxT; t++) base[t] = probe.addr[t] & ~(uintptr_t)(AREA - 1);
+    size_t bump = (probe.addr[0] - base[0]) + 128;
+    std::vector<int> cnt(32, 0);
+    std::vector<PObj> objs;
+    int nops = ops * 3, done_ops = 0;
+    int focus_lo = (int)wl_range(0, 8), focus_hi = (int)wl_range(focus_lo, 12);   // per run: a narrow band of sizes makes class collisions likely
+    while (done_ops < nops) {
+      int actor = (int)wl_range(0, nthr - 1), batch = (int)wl_range(1, 8);
+      galois::on_each([&](unsigned tid, unsigned) {
+        if ((int)tid != actor) return;
+        for (int b = 0; b < batch; b++) {
+          bool destroy = !objs.empty() && (int)(trand(tid) % 100) < free_pct + 10;
+          if (!destroy) {
+            int k = (int)(focus_lo + trand(tid) % (focus_hi - focus_lo + 1));
+            unsigned c = cls_of(MKSZ[k]); size_t sz = (size_t)1 << c;
+            bool ok = false; int from = -1;
+            if (bump + sz <= AREA) ok = true;
+            else { for (unsigned q = c; q < 30; q++) if (cnt[q] > 0) { from = (int)q; ok = true; break; } }
+            if (!ok) { destroy = !objs.empty(); if (!destroy) continue; }
+            else {
+              PObj o = MK[k]();
+              o.cls = c; o.off = (unsigned)(o.addr[0] - base[0]);
+              for (unsigned t = 0; t < maxT; t++) {
+                if (o.addr[t] - base[t] != o.off) vsim_fail("c09.pts.offset", "PerThreadStorage object of %zu bytes: thread %u sees offset %zu, thread 0 offset %u", o.size, t, (size_t)(o.addr[t] - base[t]), o.off);
+                if (o.off + o.size > AREA) vsim_fail("c09.size", "PerThreadStorage object of %zu bytes placed at offset %u: does not fit the %zu byte per-thread area", o.size, o.off, AREA);
+                on_alloc("PerThreadStorage", (void*)o.addr[t], o.size, 128, (int)tid);
+              }
+              if (from < 0) bump += sz; else { cnt[from]--; for (int q = from - 1; q >= (int)c; q--) cnt[q]++; }
+              objs.push_back(o);
+              vsim_probe_add(from < 0 ? "pts_bump" : (from == (int)c ? "pts_exact" : "pts_split"), 1);
+            }
+          }
+          if (destroy) {
+            size_t i = trand(tid) % objs.size();
+            PObj o = objs[i]; objs[i] = objs.back(); objs.pop_back();
+            for (uintptr_t a : o.addr) { on_free("PerThreadStorage", a); for (size_t z = 0; z < live_list.size(); z++) if (live_list[z] == a) { live_list[z] = live_list.back(); live_list.pop_back(); break; } }
+            o.del(o.obj);
+            size_t sz = (size_t)1 << o.cls;
+            if (o.off + sz == bump) bump = o.off; else cnt[o.cls]++;
+          }
+          if (trand(tid) % 4 == 0) vsim_yield();
+        }
+      });
+      done_ops += batch;
+    }
+    verify_all("PerThreadStorage-history");
+    for (auto& o : objs) { for (uintptr_t a : o.addr) on_free("PerThreadStorage", a); o.del(o.obj); }
+    probe.del(probe.obj);
+    live.clear(); live_list.clear();
     break; }
   default: {
     // constructed free-list / "change" scenario on the per-thread-storage offsets: fill the bump area with
